@@ -353,7 +353,11 @@ void vfps::KickMap::updateSM()
         meshindex_t jd; //numper of lower mesh point from p'
         interpol_t xip; //distance of p' from lower mesh point
         xip = std::modf(poffs, &qp_int);
-        jd = qp_int;
+        // positions below the grid, beyond it or NaN count as outside
+        // (converting them to an unsigned index would be undefined)
+        jd = (qp_int >= 0 && qp_int < _meshsize_kd)
+           ? static_cast<meshindex_t>(qp_int)
+           : static_cast<meshindex_t>(_meshsize_kd);
 
         if (jd < static_cast<meshindex_t>(_meshsize_kd)) {
             // create vectors containing interpolation coefficiants
